@@ -73,6 +73,10 @@ class Sub(dict):
 
 def gen(spec, lv):
     kind = spec[0]
+    if kind == "symx":
+        # systematic expression shapes over parameters (generator shared with C01)
+        from . import c01
+        return {"text": c01.symx_text(spec[1]), "pre": []}
     modes = []
     sub = Sub(lv, modes)
     L = ["name c04", "version 1.0", ""]
@@ -137,6 +141,9 @@ def gen_specs(tier, seed):
     for nm in WHOLE:
         for use in ("none", "arg", "idx", "loop_arg", "loop_kwarg", "loop_idx", "loop_both"):
             specs.append(("whole", nm, use))
+    from . import c01
+    sx = [x for x in c01.symx_specs() if x[0] == "param" and x[1] not in (("a", "b", "a"), ("a", "3", "2"))]
+    specs += [("symx", x) for x in (sx[(seed % 9)::9] if tier == "quick" else sx)]
     return specs
 
 
